@@ -476,11 +476,36 @@ where
 //@ requires old(editor).wf(),
 //@ ensures final(editor).wf(), final(editor).cap() == old(editor).cap(), final(self).rest_eq(old(self)),
 //@     r is Ok ==> final(self).sink_ok(old(self)),   // [C14,C15]
+//@     // C11 (top level): Tab on a line that is a single partially typed word (up to the blanks right of the cursor)
+//@     // extends it by what the names of C plus the built-in `help` that start with the word have in common --
+//@     // their longest common continuation whenever every one of them fits -- and appends a space exactly when one
+//@     // name matched, is there in full and there is room; when nothing matches or an argument has been started the
+//@     // line is unchanged; the typed word is never altered and the command buffer never exceeded (wf)
+//@     ({ let line = old(editor).line_bytes(); let rl = old(editor).ac_req_len(); let cap = old(editor).cap() as int;
+//@        match ac_word(line.subrange(0, rl)) {
+//@            None => final(editor).line_bytes() == line && final(editor).cur() == old(editor).cur(),
+//@            Some(w) => exists|st: AcState| ac_inv(st, conts(C::names().push(help_word()), w), cap - rl)
+//@                && final(editor).line_bytes() == #[trigger] ac_apply(line, rl, st, cap)
+//@                && (st.auto is None ==> final(editor).cur() == old(editor).cur())
+//@                && (st.auto is Some ==> final(editor).cur() == final(editor).line().len()),
+//@        } }),   // [C11]
         let initial_cursor = editor.cursor();
+//@ let ghost line0 = editor.line_bytes();
+//@ let ghost rl0 = editor.ac_req_len();
         editor.autocompletion(|request: Request<'_>, autocompletion: &mut Autocompletion<'_>| {
 //@ requires autocompletion.wf(),
 //@ ensures crate::autocomplete::ac_api_only(autocompletion),
+//@     final(autocompletion).cands@ == old(autocompletion).cands@ + conts(C::names().push(help_word()), request.name()),   // [C11]
+//@     ac_inv(old(autocompletion).state(), old(autocompletion).cands@, old(autocompletion).room())
+//@         ==> ac_inv(final(autocompletion).state(), final(autocompletion).cands@, old(autocompletion).room()),   // [C11]
 //@ ---
+//@ let ghost cands0 = autocompletion.cands@;
+//@ let ghost w = request.name();
+//@ proof {
+//@     lemma_conts_concat(C::names(), seq![help_word()], w);
+//@     lemma_conts_one(help_word(), w);
+//@     assert(C::names().push(help_word()) =~= C::names() + seq![help_word()]);
+//@ }
 //@ proof { broadcast use axiom_str_len_bound; broadcast use lemma_str_view_bytes; lemma_help_word(); }
             C::autocomplete(request.clone(), autocompletion);
             match request {
@@ -495,9 +520,24 @@ where
 //@     is_char_boundary_start_end_of_seq(h);
 //@ }
                     let autocompleted = unsafe { "help".get_unchecked(name.len()..) };
+//@ let ghost mid = autocompletion.cands@;
                     autocompletion.merge_autocompletion(autocompleted)
+//@ ;
+//@ proof {   // [C11]
+//@     assert(name.spec_bytes() == w);
+//@     assert(is_prefix_of(w, help_word()));
+//@     let c = help_word().subrange(w.len() as int, 4);
+//@     assert(autocompleted.spec_bytes() == c);
+//@     assert(mid == cands0 + conts(C::names(), w));
+//@     assert(mid.push(c) =~= cands0 + (conts(C::names(), w) + seq![c]));
+//@ }
                 }
-                _ => {}
+                _ => {
+//@ proof {   // [C11]
+//@     assert(!is_prefix_of(w, help_word()));
+//@     assert(cands0 + conts(C::names(), w) =~= cands0 + (conts(C::names(), w) + Seq::<Seq<u8>>::empty()));
+//@ }
+                }
             }
         });
         if editor.cursor() > initial_cursor {
